@@ -246,6 +246,20 @@ def projection_correspondence(R, tier, pid=PID):
         mod = "_gjk_nesterov_accelerated.py" if name == "generic" else "_gjk_nesterov_accelerated_primitives.py"
         R.failure(f"simplex projection of {mod} differs from the model Model/NesterovLoop.v on a {len(P)}-point simplex: {why[:500]}",
                   dict(simplex=P, module=mod), site=f"{mod}:project_{ {2: 'line', 3: 'triangle', 4: 'tetra_to'}[len(P)] }_origin")
+    # the invariant the partial convergence theorem assumes, monitored on the code: in GJK-reachable states, at every leaf,
+    # |ray| returned by project_tetra_to_origin is the distance of the simplex from the origin (Coq-certified per tetrahedron)
+    try:
+        st, fails = ncorr9.projection_soundness(pid, R.rng, per_leaf=3 if tier == "quick" else 24,
+                                                budget=15000 if tier == "quick" else 150000)
+    except RuntimeError as e:
+        R.proof_broken.append(f"projection soundness certificates could not be evaluated: {str(e)[:300]}")
+        return
+    R.cov["projection_soundness"] = st
+    for (P, vals, g, leaf) in fails[:5]:
+        R.failure(f"project_tetra_to_origin (leaf {leaf}) returns |ray| = {vals} for a tetrahedron in a GJK-reachable state whose "
+                  f"distance from the origin is {g!r} (certified by dist_values_cert on Hull(simplex) vs the origin, tau = 1e-6 * size): "
+                  f"the Nesterov loop takes |ray| for its upper bound / convergence exit value (finding F-N3 was of this kind)",
+                  dict(simplex=P, values=vals, closest=g, leaf=str(leaf)), site="project_tetra_to_origin")
 
 
 def run(tier, seed, replay=None):
